@@ -18,7 +18,7 @@ import z3
 from vcgen import alg, idx, stubs
 from vcgen.core import DISCHARGED, FAILED, UNSUPPORTED, Ob, pmap, known_related
 from vcgen.idx import Ent, IArr, IndexFn, ents_expr, ifns, resolve_sums
-from vcgen.proxy import CTX, SInt, Unsupported, explore, iterm, is_cplx
+from vcgen.proxy import CTX, SBool, SInt, SScal, Unsupported, explore, iterm, is_cplx
 
 R, I = z3.RealSort(), z3.IntSort()
 MAG = z3.Function("mag", R, R)
@@ -126,9 +126,15 @@ def run(chk):
     for obs in pmap(lambda i: rule_one(*tasks[i]), len(tasks)):
         for ob in obs:
             chk.add(ob)
+    for obs in pmap(lambda i: power_one(("real", "complex")[i]), 2):
+        for ob in obs:
+            chk.add(ob)
+    chk.under_contract("cola.linalg.eig.power_iteration.power_iteration")
     check_eigmax_min(chk)
     check_auto(chk)
     check_triangular_eigvecs(chk)
+    if chk.tier == "thorough":
+        differential(chk, tasks)
     check_get_slice(chk)
 
     def replayer(ob):
@@ -552,3 +558,89 @@ def annotation_obligations(chk):
         for ob in obs:
             ob.engine = "IDX"
             chk.add(ob)
+
+
+def differential(chk, tasks):
+    """thorough tier: every rule whose obligations were discharged is also run natively on concrete operators (sizes 1..8, spectra with both signs, every k in
+    {1, n/2, n}) against numpy.linalg; a discharged rule that fails natively means a contract (dependency or callee) is wrong - it is reported, with the input"""
+    from props import c10_replay
+    seen = set()
+    todo = []
+    for atype, algtype, dt, which, ann, low in tasks:
+        key = (atype, algtype, dt, which)
+        if key in seen:
+            continue
+        seen.add(key)
+        todo.append(key)
+
+    def work(i):
+        atype, algtype, dt, which = todo[i]
+        t0 = time.time()
+        rp = c10_replay.replay(dict(engine="EIGRULE", atype=atype, alg=algtype, dtype=dt, which=which))
+        return (todo[i], rp, time.time() - t0)
+    for (atype, algtype, dt, which), rp, secs in pmap(work, len(todo)):
+        ok = rp.get("replayed") and not rp.get("failing_input_found")
+        ob = Ob(key=f"C10/eig[{atype},{algtype};{dt};{which}]/native cross-check against numpy.linalg/bounded(n<=8)", fn=f"cola.linalg.eig.eigs.eig[{atype},{algtype}]",
+                clause="eigenpairs, independence, selection, annotations on concrete operators", engine="BOUNDED", status=DISCHARGED if ok else FAILED,
+                backend="real code on concrete inputs", secs=secs, bounded=True, detail=str({k: v for k, v in rp.items() if k != "replayed"})[:300])
+        if not ok:
+            ob.witness = dict(engine="EIGRULE", atype=atype, alg=algtype, dtype=dt, which=which)
+        chk.add(ob)
+
+
+def power_one(dt):
+    """power_iteration: the REAL loop closures against the spec of the power method (index domain with sum atoms):
+       p = A v;  lambda' = v^H p (Hermitian Rayleigh quotient);  v' = p/||p||;  continue iff i < max_iter and |lambda_prev - lambda| / |lambda| > tol;
+       start: v0 = z/||z|| for the keyed draw z (default key 42), i = 0; the dominant pair returned is the final (v, lambda)."""
+    import importlib
+    from props import krylov_common as K
+    from vcgen import kidx
+    from vcgen.rules import sym_dim
+    P = importlib.import_module("cola.linalg.eig.power_iteration")
+    dtype = np.float64 if dt == "real" else np.complex128
+    store = {}
+
+    def thunk():
+        n = sym_dim("n")
+        A, a = idx.make_abstract_op("A", n, n, dtype)
+        z = IArr.const("z", (n,), dtype)
+        rec = {}
+
+        def randn(*shape, dtype=None, device=None, key=None):
+            rec.update(shape=shape, key=key)
+            return z
+        ifns.randn = randn
+        ifns.PRNGKey = lambda x: SInt.lift(x)
+        tol = SScal(z3.Real(CTX.fresh("tol")))
+        mx = SInt(z3.Int(CTX.fresh("max_iter")))
+        fin_v = K.state_array("v_final", (n,), dtype)
+        fin_e = K.state_array("lambda_final", (), dtype)
+        store["final"] = lambda init: (SInt(z3.Int(CTX.fresh("i_final"))), fin_v, fin_v, fin_e, fin_e)
+        v_out, e_out, info = P.power_iteration(A, tol=tol, max_iter=mx, pbar=False, key=None)
+        goals = []
+        i0, v0, vp0, e0, ep0 = store["init"]
+        K.same("start: v0 = z/||z|| for the keyed draw z", v0, z / kidx._norm(z), goals)
+        goals.append(("start: the draw has n entries and uses the default key 42 when none is given; the counter starts at 0",
+                      z3.And(len(rec["shape"]) == 1, iterm(rec["shape"][0]) == n.term, iterm(rec["key"]) == 42, iterm(i0) == 0)))
+        K.same("the dominant pair returned is the final state's vector", v_out, fin_v, goals)
+        K.same("and its Rayleigh quotient", e_out, fin_e, goals)
+        # one step from an arbitrary state
+        i = SInt(z3.Int(CTX.fresh("i")))
+        v = K.state_array("v", (n,), dtype)
+        vprev = K.state_array("vprev", (n,), dtype)
+        lam = K.state_array("lambda", (), dtype)
+        lamp = K.state_array("lambda_prev", (), dtype)
+        i1, v1, vp1, l1, lp1 = store["body"]((i, v, vprev, lam, lamp))
+        pvec = A @ v
+        K.same("step: counter", i1, i + 1, goals)
+        K.same("step: v' = A v / ||A v||", v1, pvec / kidx._norm(pvec), goals)
+        K.same("step: lambda' = v^H (A v)  (conjugate on v)", l1, ifns.conj(v) @ pvec, goals)
+        K.same("step: previous value kept for the stopping rule", lp1, lam, goals)
+        c = store["cond"]((i, v, vprev, lam, lamp))
+        cterm = c.term if isinstance(c, SBool) else z3.BoolVal(bool(c))
+        from vcgen.kidx import one
+        rel = idx._mulv(one(kidx._abs(lamp - lam)), alg.rinv(one(kidx._abs(lam))))
+        goals.append(("stop: continue iff i < max_iter and |lambda_prev - lambda| / |lambda| > tol", cterm == z3.And(i.term < mx.term, rel > tol.re)))
+        return goals
+    return K.run_paths(f"C10/power_iteration[{dt}]", "cola.linalg.eig.power_iteration.power_iteration", thunk, dict(engine="EIGRULE", atype="LinearOperator", alg="PowerIteration", dtype=dt, which="LM"),
+                       extra_backend=dict(while_loop_winfo=K.capture_loop(store)))
